@@ -43,7 +43,7 @@ NavOk(N, root, q) ==
       [] q.op = "index"    -> TokenIndex(N, q.g, q.o) = q.ri
       [] q.op = "first"    -> TokenFirst(N, q.g, q.sw, q.sc) = q.rn
       [] q.op = "offset"   -> TokenAtOffset(N, root, q.i) = q.rn
-      [] q.op = "within"   -> Within(N, q.o, q.c) = (q.ri = 1)
+      [] q.op = "within"   -> WithinAny(N, q.o, {q.cs[k] : k \in 1..Len(q.cs)}) = (q.ri = 1)
       [] q.op = "ancestor" -> HasAncestor(N, q.o, q.g) = (q.ri = 1)
       [] q.op = "childof"  -> IsChildOf(N, q.o, q.g) = (q.ri = 1)
       [] OTHER -> FALSE
